@@ -310,7 +310,7 @@ class HashWalkEngine:
                 ops.append({"op": "repr", "key": rk,
                             "repr": rng.choice(REPRS_FOR[rk][1:])})
             elif k == "perturb":
-                ops.append({"op": "perturb",
+                ops.append({"op": "perturb", "reset": rng.random() < 0.5,
                             "col": rng.choice(["force", "tip position",
                                                "height (measured)"]),
                             "index": rng.randrange(10000),
@@ -359,6 +359,7 @@ class HashWalkEngine:
         executed = 0
         oracle_checks = 0
         special = False
+        stale_ok = False   # stored hash known to predate a data edit
         PLAN.disarm()
 
         def viol(rule, site, feats, msg, i):
@@ -422,8 +423,14 @@ class HashWalkEngine:
                         perturb.append([op["col"], op["index"], op["ulps"]])
                         apply_perturb(live, [perturb[-1]])
                         # the harness edits a column behind nanite's back
-                        # (new data): drop results like a setting edit does
-                        live.fit_properties.reset()
+                        # (new data). Half of the time results are dropped
+                        # like a setting edit does; otherwise the stored
+                        # results stay (nothing tells nanite) and only the
+                        # *recomputed* hash is read until they are dropped
+                        if op.get("reset", True):
+                            live.fit_properties.reset()
+                        elif "hash" in live.fit_properties:
+                            stale_ok = True
                         # a changed column invalidates results the same way
                         # nanite's own column edits do: nothing to reset in
                         # fit_properties for the hash itself
@@ -465,7 +472,9 @@ class HashWalkEngine:
                             live.fit_model()
                         except _caught():
                             continue
-                        if "hash" in live.fit_properties:
+                        if "hash" not in live.fit_properties:
+                            stale_ok = False
+                        if "hash" in live.fit_properties and not stale_ok:
                             oracle_checks += 1
                             h2 = read_hash(live)
                             probes["H2 stored hash compared"] += 1
@@ -512,7 +521,9 @@ class HashWalkEngine:
                     "H1", f"hash-raises:{type(e).__name__}", feats,
                     f"computing the hash raised {type(e).__name__}: {e}", i)
                 break
-            if kind == "set" and op_probe is not None:
+            if "hash" not in live.fit_properties:
+                stale_ok = False
+            if kind == "set" and op_probe is not None and not stale_ok:
                 probes["H2 stored hash compared (fit_model(**kw) route)"] += 1
                 oracle_checks += 1
                 if op_probe != h:
